@@ -234,6 +234,16 @@ fn fn_entry_points(ty: &DynType, json_text: &str, smile: &[u8], orig: &DynVal, o
         let mut buf = smile.to_vec();
         put("smile_server_fn_mut_slice", cs::server_from_mut_slice::<TlDyn>(&mut buf).map_err(|e| e.to_string()));
     }
+    // the request-body deserializers conjure-http's registered encodings hand out (server rules, type-erased)
+    {
+        use conjure_http::server::{Encoding, JsonEncoding, SmileEncoding};
+        let mut st = JsonEncoding.deserializer(json_text.as_bytes());
+        let r = ty.deserialize(st.deserializer()).map_err(|e| e.to_string()).and_then(|v| st.end().map(|()| v).map_err(|e| e.to_string()));
+        out.insert("json_server_http".to_string(), res(r, orig));
+        let mut st = SmileEncoding.deserializer(smile);
+        let r = ty.deserialize(st.deserializer()).map_err(|e| e.to_string()).and_then(|v| st.end().map(|()| v).map_err(|e| e.to_string()));
+        out.insert("smile_server_http".to_string(), res(r, orig));
+    }
 }
 
 fn de_all(ty: &DynType, json_text: &str, smile: &[u8], orig: &DynVal) -> Value {
